@@ -108,7 +108,7 @@ def kernel_certificates(workdir, pid, certs):
         if not sh: continue
         f = os.path.join(workdir, 'cert_%s_%d.v' % (pid, k))
         with open(f, 'w') as fh:
-            fh.write('From Semver Require Import RParse.\nFrom Coq Require Import ZArith.\nOpen Scope N_scope.\n')
+            fh.write('From Semver Require Import RParse RangeLaws.\nFrom Coq Require Import ZArith.\nOpen Scope N_scope.\n')
             for i, c in enumerate(sh):
                 fh.write('Example c%d : %s.\nProof. vm_compute. reflexivity. Qed.\n' % (i, c))
         procs.append((f, sh, subprocess.Popen(['coqc', '-noglob', '-Q', COQ, 'Semver', f], cwd=workdir,
